@@ -157,7 +157,7 @@ def one(ctx, i):
 
 def run(ctx):
     import check
-    n = 160 if ctx.quick else 800
+    n = 320 if ctx.quick else 1000
     check.pmap(ctx, 'props.c13', 'one', list(range(n)), case_timeout=200 if ctx.quick else 900)
 
 
